@@ -56,7 +56,8 @@ pub fn run_main(modules: &'static [(ExecFn, GenFn)]) {
         }
         Some("exec") => {
             let oracle_path = args.iter().position(|a| a == "--oracle").map(|i| args[i + 1].clone());
-            std::panic::set_hook(Box::new(|i| { let l = i.location().map(|l| { let f = l.file(); let f = f.rsplit('/').take(2).collect::<Vec<_>>().into_iter().rev().collect::<Vec<_>>().join("/"); format!("{}:{}", f, l.line()) }).unwrap_or_default(); if std::env::var_os("VERIF_PANIC_LOG").is_some() { eprintln!("panic: {} @ {}", i.payload().downcast_ref::<&str>().map(|s| s.to_string()).or_else(|| i.payload().downcast_ref::<String>().cloned()).unwrap_or_default(), l); } PANIC_LOC.with(|c| *c.borrow_mut() = l); }));
+            std::panic::set_hook(Box::new(|i| { let l = i.location().map(|l| { let f = l.file(); let f = f.rsplit('/').take(2).collect::<Vec<_>>().into_iter().rev().collect::<Vec<_>>().join("/"); format!("{}:{}", f, l.line()) }).unwrap_or_default(); if std::env::var_os("VERIF_PANIC_BT").is_some() { eprintln!("{}", std::backtrace::Backtrace::force_capture()); }
+                if std::env::var_os("VERIF_PANIC_LOG").is_some() { eprintln!("panic: {} @ {}", i.payload().downcast_ref::<&str>().map(|s| s.to_string()).or_else(|| i.payload().downcast_ref::<String>().cloned()).unwrap_or_default(), l); } PANIC_LOC.with(|c| *c.borrow_mut() = l); }));
             let child = std::thread::Builder::new().stack_size(512 << 20).spawn(move || {
                 let stdin = std::io::stdin();
                 let so = std::io::stdout();
